@@ -437,11 +437,11 @@ class Energies(list):
         for item in self:
             if other == item:
                 logger.debug(
-                    f"Not appending {other} to the energies - "
-                    f"already present. Moving to the end"
+                    f"{other} is already present in the energies. "
+                    f"Replacing it with the latest value at the end"
                 )
-                self.append(self.pop(self.index(item)))
-                return
+                self.pop(self.index(item))
+                break
 
         return super().append(other)
 
